@@ -221,8 +221,8 @@ def _known_keyword(check, case, v):
 
 
 CHECKS = [
-    Check("reader", run_case, strategy=lambda tier: cases(), quick_n=1800, thorough_n=40000, fuzz_runs=30000),
-    Check("layouts_agree", run_layouts_agree, strategy=lambda tier: cases(), quick_n=400, thorough_n=8000),
+    Check("reader", run_case, strategy=lambda tier: cases(), quick_n=1800, thorough_n=12000, fuzz_runs=20000),
+    Check("layouts_agree", run_layouts_agree, strategy=lambda tier: cases(), quick_n=400, thorough_n=3000),
 ]
 
 
